@@ -6,7 +6,7 @@ Three families, all evaluated on scratch copies of /repo/Pyro5 (tempfile.mkdtemp
   * seeded changes (/verif/seeded/*/patch.diff, written by independent sub-agents): must be reported by the checks recorded in their
     meta.json and must stay silent in every other property (they double as benign twins for unrelated rules).
   * benign twins: behaviour-preserving whole-package transformations (re-format through ast.unparse, no-op statements inserted
-    everywhere, every function-local variable renamed); every check must report exactly what it reports on the unchanged tree.
+    everywhere, every function-local variable renamed, every else-less `if` inverted, `{}` written as dict(), a log call at every function entry); every check must report exactly what it reports on the unchanged tree.
 A disagreement is an ANALYSIS-ERROR (exit 2), never a violation.
 """
 import ast
@@ -600,7 +600,48 @@ def twin_rename_locals(tree, relpath):
     return _Rename().visit(tree)
 
 
-TWINS = [("reformat-through-unparse", twin_reformat), ("noop-statements-everywhere", twin_noops), ("rename-all-function-locals", twin_rename_locals)]
+class _InvertIfs(ast.NodeTransformer):
+    """`if c: A`  ->  `if not c: pass  else: A`   (only ifs without an else part)"""
+
+    def visit_If(self, node):
+        self.generic_visit(node)
+        if not node.orelse:
+            node.test = ast.UnaryOp(ast.Not(), node.test)
+            node.orelse = node.body
+            node.body = [ast.Pass()]
+        return node
+
+
+def twin_invert_ifs(tree, relpath):
+    return _InvertIfs().visit(tree)
+
+
+class _DictCalls(ast.NodeTransformer):
+    def visit_Dict(self, node):
+        if not node.keys:
+            return ast.Call(ast.Name("dict", ast.Load()), [], [])
+        self.generic_visit(node)
+        return node
+
+
+def twin_dict_calls(tree, relpath):
+    return _DictCalls().visit(tree)
+
+
+def twin_logging(tree, relpath):
+    has_log = any(isinstance(st, ast.Assign) and isinstance(st.targets[0], ast.Name) and st.targets[0].id == "log" for st in tree.body)
+    if not has_log:
+        return tree
+    for n in ast.walk(tree):
+        if isinstance(n, ast.FunctionDef) and not any(isinstance(x, (ast.Yield, ast.YieldFrom)) for x in ast.walk(n)):
+            doc = ast.get_docstring(n)
+            idx = 1 if doc is not None else 0
+            n.body.insert(idx, ast.parse("log.debug('entering %s', %r)" % ("%s", n.name)).body[0])
+    return tree
+
+
+TWINS = [("reformat-through-unparse", twin_reformat), ("noop-statements-everywhere", twin_noops), ("rename-all-function-locals", twin_rename_locals),
+         ("invert-every-if-without-else", twin_invert_ifs), ("dict()-instead-of-{}", twin_dict_calls), ("log.debug-at-every-function-entry", twin_logging)]
 
 
 # ------------------------------------------------------------------------------------------------ execution
